@@ -23,11 +23,37 @@ def run_actions(pid, tier):
     shards = 10
     scratch = os.path.join(work, "scratch")
     evs = [os.path.join(work, "ev.%d.ndjson" % i) for i in range(shards)]
-    cmds = [[vh, "refactor-replay", libs, evs[i], scratch, "--shard", "%d/%d" % (i, shards)] for i in range(shards)]
-    for rc, out in parallel(cmds, 3000):
-        if rc != 0:
-            raise ToolError("refactor-replay failed: " + out[-2000:])
+    aborted = []
+
+    def run_shard(i):
+        # a stack overflow / abort of the code under test kills the harness process: the action it was resolving
+        # (announced by a Begin line) is recorded as aborted and the run resumes with the next library
+        start = 0
+        for _ in range(40):
+            rc, out, _ = run([vh, "refactor-replay", libs, evs[i], scratch, "--shard", "%d/%d" % (i, shards), "--from", str(start)], 3000)
+            if rc == 0:
+                return
+            begun = None
+            for line in open(evs[i]):
+                if line.startswith('{"case"') or '"ev":"Begin"' in line:
+                    e = json.loads(line)
+                    if e.get("ev") == "Begin":
+                        begun = e
+            if begun is None or rc == -9:
+                raise ToolError("refactor-replay failed (%s): %s" % (rc, out[-2000:]))
+            aborted.append((begun, out[-300:]))
+            start = begun["ln"] + 1
+        raise ToolError("refactor-replay keeps aborting: " + str(aborted[-1]))
+
+    with concurrent.futures.ThreadPoolExecutor(max_workers=10) as ex:
+        list(ex.map(run_shard, range(shards)))
     shutil.rmtree(scratch, ignore_errors=True)
+    conv = ("refactor.rewrite.list.type", "refactor.rewrite.list.section", "refactor.rewrite.section.list")
+    for b, tail in aborted:
+        if (b["kind"] in conv) == (pid == "C10"):
+            p = save_replay(work, "%s_aborted_%s" % (pid, b["case"].replace(":", "_").replace("/", "_")),
+                            {"property": pid, "case": b["case"], "reasons": [["process-aborted-while-resolving-the-action", tail]], "line_text": b.get("line_text")})
+            res.violation(p, "%s: the server process aborted (stack overflow?) while resolving the action: %s" % (b["case"], tail.strip()[-120:]))
 
     def judge(i):
         tr = os.path.join(work, "tr.%d.ndjson" % i)
@@ -67,6 +93,8 @@ def run_actions(pid, tier):
     for i in range(shards):
         for line in open(evs[i]):
             e = json.loads(line)
+            if e.get("ev") != "Action":
+                continue
             total += 1
             if (e["kind"] in c10) == (pid == "C10"):
                 mine_total += 1
